@@ -477,5 +477,47 @@ pub fn worker(ctx: &WorkerCtx) -> Report {
             }
         }
     }
+    // ---- first-time requests racing the firewall's backward projection
+    // (projection fan over one firewall; in every epoch the firewall's input changes and
+    // consumers computed before - whose request repairs the firewall, which then walks its
+    // callers - are requested concurrently with consumers requested for the first time, whose
+    // projections are completing and registering themselves as callers meanwhile).
+    // Oracle: every request returns (no panic reaches the caller) with the from-scratch value.
+    let n: u64 = ctx.pick(4000, 24000);
+    let mut reported = false;
+    for i in 0..n {
+        let mut r = base.derive(2_000_000 + i);
+        let scale = *r.pick(&[12u32, 24, 34, 40, 70]);
+        let prog = crate::model::gen_family(&mut r, 1, scale);
+        let history = crate::c01::fresh_projection_history(&mut r, scale);
+        let case = crate::c01::Case { prog: Arc::new(prog), history, fan: scale };
+        let cfg = crate::c01::CaseCfg { backend: "InMemory".into(), rt_workers: *r.pick(&[2usize, 4, 4, 8]), yield_every: *r.pick(&[None, None, Some(3usize)]), exec_yields: *r.pick(&[0u32, 0, 1]) };
+        let what = format!("first-time fan round {i} scale={scale} cfg={cfg:?} steps={}", case.history.len());
+        ctx.announce(&what);
+        rep.evaluations += 1;
+        rep.count("first_time_fan_rounds", 1);
+        let mark = crate::sup::panic_mark();
+        let out = std::panic::catch_unwind(std::panic::AssertUnwindSafe(|| crate::c01::run_on(&MemBackend, &case, &cfg)));
+        match out {
+            Ok(Ok(o)) => {
+                rep.count("first_time_fan_query_returns", o.oracle.stats.query_returns);
+                rep.distinct.insert(h64(&(case.prog.shape_hash(), format!("{:?}", case.history), cfg.rt_workers)));
+                // wrong values here are C01's subject (and carry C01-F1); not judged by C02
+            }
+            Ok(Err(e)) => rep.inconclusive.push(format!("{what}: {e}")),
+            Err(_) => {
+                let panics = crate::sup::panics_since(mark);
+                rep.count("first_time_fan_rounds_with_a_panic", 1);
+                if !reported {
+                    reported = true;
+                    ctx.violation(&Violation {
+                        signature: "C02/panic-reaches-a-concurrent-request [first-time requests while a firewall walks its callers]".into(),
+                        what: format!("a request panicked: {}", panics.iter().rev().take(2).cloned().collect::<Vec<_>>().join(" <- ")),
+                        witness: Json::obj().set("case", what.as_str()).set("panics", Json::Arr(panics.into_iter().map(Json::Str).collect())).set("program", case.prog.to_json()).set("history", crate::eng::history_json(&case.history)),
+                    });
+                }
+            }
+        }
+    }
     rep
 }
